@@ -30,7 +30,7 @@ def _judge(run):
     return labels, bool(t is not None and t.metaepoch_count >= 2 and ch.carried > 0)
 
 
-P = ScenarioProperty(PROP, {"local_weight": 4}, lambda sc: [C02Checker(sc)], _judge, quick=1600, thorough=30000)
+P = ScenarioProperty(PROP, {"local_weight": 4, "allow_cache": True}, lambda sc: [C02Checker(sc)], _judge, quick=1600, thorough=30000)
 
 
 def run_shard(tier, seed, shard, nshards, tally, scale=1.0):
